@@ -262,7 +262,8 @@ def judge(events, tag, bins=16, timeout=3000):
 
 def case_of(e):
     """The replayable description of an event (inputs + what the code returned)."""
-    c = {"stage": "C", **{k: v for k, v in e.items() if k != "id"}}
+    front = ("op", "cls", "text", "net", "j", "notation")
+    c = {"stage": "C", **{k: e[k] for k in front if k in e}, **{k: v for k, v in e.items() if k != "id" and k not in front}}
     return c
 
 
@@ -314,11 +315,10 @@ def _stage_a_eval(ctx, res):
                   "mutation classes; Base58Check level")
         ctx.stage_a(cfg, r, constants=consts + " (small curve, toy HMAC, I_L in 0..n+3)")
         ctx.cov["stage_a"][-1]["actions"] = census          # census of outcome classes printed by the model itself
-    ctx.cov["stage_a"].append({"model": "MC_Bip32_S1_dev.cfg", "constants": "Dev = pub-no-il-check (self-test: TLC must find the "
-                               "Commute counterexample)", "distinct_states": res["MC_Bip32_S1_dev.cfg"].distinct,
-                               "states_generated": res["MC_Bip32_S1_dev.cfg"].generated, "depth": 2, "exhaustive": True,
-                               "actions": {"counterexample": res["MC_Bip32_S1_dev.cfg"].invariant},
-                               "wall_s": round(res["MC_Bip32_S1_dev.cfg"].wall, 1)})
+    dev = res["MC_Bip32_S1_dev.cfg"]
+    next(a for a in ctx.cov["stage_a"] if a["model"] == "MC_Bip32_S1.cfg")["deviation_selftest"] = {
+        "cfg": "MC_Bip32_S1_dev.cfg", "deviation": "CKDpub without the I_L >= n test", "tlc_reports_violated": dev.invariant,
+        "states_generated": dev.generated, "wall_s": round(dev.wall, 1)}
 
 
 # ------------------------------------------------------------------------------ stage B
@@ -600,9 +600,9 @@ def record_ser(prv, key, cc, depth, fp, idx, net, how):
         out = vlib.run_call(b43.serialized_extended_key, k, bytes(cc), d, bytes(fp), c)
     else:
         out = vlib.run_call(b32.serialized_extended_key, k, bytes(cc), d, bytes(fp), c, testnet=(net == "test"))
-    e = {"op": "ser", "prv": prv, "key": list(key), "cc": list(cc), "depth": depth, "fp": list(fp), "idx": list(idx), "net": net,
-         "how": how, "depth_type": "bytes" if how[0] == "b" else "int", "child_no_type": "bytes" if how[1] == "b" else "int",
-         "out": item(out), "cls": "ser-" + how}
+    e = {"op": "ser", "how": how, "depth_type": "bytes" if how[0] == "b" else "int", "child_no_type": "bytes" if how[1] == "b" else "int",
+         "via": "bip43" if how[2:] == "43" else "bip32", "prv": prv, "net": net, "depth": depth, "idx": list(idx), "fp": list(fp),
+         "out": item(out), "key": list(key), "cc": list(cc), "cls": "ser-" + how}
     back = vlib.run_call(b32.deserialized_extended_key, out["ok"]) if e["out"]["st"] == "ok" and e["out"]["v"] else None
     e["back"] = item(back, _fields) if back is not None else dict(NA)
     return e
@@ -726,7 +726,14 @@ def _report(ctx, ev, verdicts):
         elif e.get("cls") != "valid":
             ctx.nontrivial(("C", e["op"], e.get("cls"), bytes(e.get("s", e.get("key", [])))[:24]))
         if v != "ok":
-            ctx.violation(v, case_of(e), f"Trace_Bip32 verdict {v}")
+            if e["op"] == "ser":
+                detail = (f"serialized_extended_key(key, chaincode, depth=<{e['depth_type']}>, fingerprint, child_no=<{e['child_no_type']}>) "
+                          f"-> {e['out']['st']} {e['out'].get('exc', '')}; deserialised again -> {e['back']['st']}")
+            elif e["op"] == "deser":
+                detail = f"{bytes(e['s']).decode('ascii', 'replace')} ({e.get('cls')}): accepted={e['acc']} {e.get('exc', '')}"
+            else:
+                detail = f"{e['text']} net={e['net']} seed={bytes(e['seed']).hex()} neuter_at={e['j']}"
+            ctx.violation(v, case_of(e), detail)
 
 
 def _check_selftests(st, verdicts):
